@@ -542,3 +542,15 @@ package core
 //@ props C18
 //@ fresh r0
 //@ loop 1 invariant true
+
+// ---- C15: slot arithmetic used by the scheduler ---------------------------------------------------
+//@ func (s Slot) Epoch
+//@ props C15
+//@ pure
+//@ requires s.SlotsPerEpoch > 0
+//@ ensures result == s.Slot / s.SlotsPerEpoch
+
+//@ func (s Slot) Next
+//@ props C15
+//@ pure
+//@ ensures result.Slot == s.Slot + 1 && result.SlotsPerEpoch == s.SlotsPerEpoch && result.SlotDuration == s.SlotDuration
